@@ -56,7 +56,7 @@ struct Inline<T, const N: usize> {
 impl<T, const N: usize> Inline<T, N> {
     #[inline]
     fn new() -> Self {
-        Inline { items: core::array::from_fn(|_| None), len: 0 }
+        Inline { items: [const { None }; N], len: 0 }
     }
     #[inline]
     fn len(&self) -> usize {
@@ -117,7 +117,18 @@ impl<T, const N: usize> Inline<T, N> {
 
 impl<T: Clone, const N: usize> Clone for Inline<T, N> {
     fn clone(&self) -> Self {
-        Inline { items: core::array::from_fn(|i| self.items[i].clone()), len: self.len }
+        // a plain loop over a pre-filled array (core::array::from_fn goes through MaybeUninit guards that are
+        // expensive for the model checker)
+        let mut out: Inline<T, N> = Inline::new();
+        let mut i = 0;
+        while i < N {
+            if i < self.len {
+                out.items[i] = self.items[i].clone();
+            }
+            i += 1;
+        }
+        out.len = self.len;
+        out
     }
 }
 
